@@ -608,4 +608,8 @@ def run(ck: Check, repo: Repo) -> None:
     rule_nesting(ck, repo)
     rule_dep5(ck, repo)
     rule_exclusive(ck, repo)
+    # which REUSE.toml files are sources at all: discovery uses the same coverage options as the file walk (shared with C03-R4)
+    from . import c03
+    r7 = ck.rule("R7", "REUSE.toml discovery receives the project's coverage options unchanged")
+    c03.discovery_forwarding(r7, repo)
     ck.exhaustive = True
